@@ -19,9 +19,17 @@ RULE = ("cases: random trees 2..6 nodes; 'equality' cases: states with bonds = S
         "both integrators x both copy strategies vs dense reference BUG; 'contract' cases: arbitrary bonds incl. "
         "redundant ones, 2 steps, truncation grid for the rank-adaptive variant; saturated two-node cases. "
         "non-trivial = distinct (shape, integrator, copy strategy, seed) with >= 3 nodes or a two-node exactness case")
-PARTIAL = ["step-equality with the scheme is decided per input against the dense reference (no universal theorem)",
-           "conservation: the Galerkin step is an exact isometric local flow (Ptn.Analysis.local_flow_norm/energy); that the new "
-           "bases contain the old ones (so the projected initial value is the old state) is validated numerically",
+PARTIAL = ["step-equality with the scheme is decided per input against the dense reference (no universal theorem). Proved "
+           "around it: the update order (Tree.updates_perm, updates_nodup, root_last, Tree.child_before_parent, "
+           "Tree.moves_perm) and, on a machine with explicit caches following root_update / update_node, which environment "
+           "block every local evolution reads (Ptn.C09.Env.bug_trace_eq_ideal, bug_env_sources: parent-side block old, "
+           "child-side blocks new, no read fails; bug_child_cache_isolation; bug_each_block_built_once; "
+           "bug_old_blocks_fresh) for every well-formed tree and every sibling order; that machine is tied to the real "
+           "BUG / FixedBUG classes by the tagged-cache comparison in harness/props/c17.py, not by a proof about Python",
+           "conservation: the Galerkin step is an exact isometric local flow (galerkin_conserves_norm/energy, "
+           "fixed_rank_step_nonexpansive; instances of Ptn.Analysis) and a basis containing the old one reproduces the old "
+           "state (augmented_basis_reproduces_state); that the library's embeddings ARE isometric and that the new bases "
+           "contain the old ones are hypotheses of these theorems, validated numerically",
            "QR / expm contracts"]
 ASSUMPTIONS = ["dense reference harness/bugref.py written from the scheme's definition, eigh-based propagators"]
 
